@@ -21,9 +21,15 @@ pub enum SEx<const N: usize> {
     F(FlatN<N>),
     D(DeepN<N>),
 }
+/// form of the pool expressions: 0 = FlatEx::parse, 1 = DeepEx::parse, 2 = FlatEx::parse_wo_compile
+pub type Form = u8;
 impl<const N: usize> SEx<N> {
-    fn parse(text: &'static str, deep: bool) -> ExResult<SEx<N>> {
-        Ok(if deep { SEx::D(DeepN::<N>::parse(text)?) } else { SEx::F(FlatN::<N>::parse(text)?) })
+    fn parse(text: &'static str, form: Form) -> ExResult<SEx<N>> {
+        Ok(match form {
+            1 => SEx::D(DeepN::<N>::parse(text)?),
+            2 => SEx::F(FlatN::<N>::parse_wo_compile(text)?),
+            _ => SEx::F(FlatN::<N>::parse(text)?),
+        })
     }
     fn un(self, name: &'static str) -> ExResult<SEx<N>> {
         Ok(match self {
@@ -70,9 +76,10 @@ fn remap(s: &Sym, from: &Table, to: &Table) -> Sym {
 
 #[derive(Clone, Debug, Hash, PartialEq, Eq)]
 pub enum SAct {
-    /// pool index, deep?, twin? (twin = the same operators in reverse table order, second
-    /// operator factory; the history is first replayed with the primary factory on this thread)
-    Init(usize, bool, bool),
+    /// pool index, form (flat / deep / uncompiled flat), twin? (twin = the same operators in
+    /// reverse table order, second operator factory; the history is first replayed with the
+    /// primary factory on this thread)
+    Init(usize, Form, bool),
     Un(usize),
     /// operator index, pool index of the other operand (usize::MAX = a copy of self), other on the left
     Bin(usize, usize, bool),
@@ -91,7 +98,7 @@ pub struct SymModel {
 impl Hist for SymModel {
     type Act = SAct;
     fn roots(&self) -> Vec<Vec<SAct>> {
-        (0..self.pool.len()).flat_map(|i| [vec![SAct::Init(i, false, false)], vec![SAct::Init(i, true, false)], vec![SAct::Init(i, false, true)], vec![SAct::Init(i, true, true)]]).collect()
+        (0..self.pool.len()).flat_map(|i| [vec![SAct::Init(i, 0, false)], vec![SAct::Init(i, 1, false)], vec![SAct::Init(i, 2, false)], vec![SAct::Init(i, 0, true)], vec![SAct::Init(i, 1, true)]]).collect()
     }
     fn enabled(&self, hist: &[SAct], out: &mut Vec<SAct>) {
         for k in 0..self.un_ops.len() {
@@ -114,7 +121,7 @@ impl Hist for SymModel {
         json!(hist
             .iter()
             .map(|a| match a {
-                SAct::Init(i, d, tw) => format!("{}{} {:?}", if *tw { "[second factory, same operators in reverse table order] " } else { "" }, if *d { "DeepEx::parse" } else { "FlatEx::parse" }, self.pool[*i].0),
+                SAct::Init(i, d, tw) => format!("{}{} {:?}", if *tw { "[second factory, same operators in reverse table order] " } else { "" }, ["FlatEx::parse", "DeepEx::parse", "FlatEx::parse_wo_compile"][*d as usize], self.pool[*i].0),
                 SAct::Un(k) => format!("operate_unary({:?})", self.table.ops[self.un_ops[*k] as usize].name),
                 SAct::Bin(k, j, left) => format!(
                     "{}operate_binary({}, {:?})",
@@ -144,10 +151,11 @@ impl SymModel {
         let mut out = Outcome { key: String::new(), bad: vec![], terminal: false, steps: 0 };
         let SAct::Init(i0, deep, _) = hist[0] else { unreachable!() };
         let form = match (deep, N) {
-            (false, 0) => "flat",
-            (true, 0) => "deep",
-            (false, _) => "flat(second factory)",
-            (true, _) => "deep(second factory)",
+            (0, 0) => "flat",
+            (1, 0) => "deep",
+            (2, 0) => "flat(uncompiled)",
+            (1, _) => "deep(second factory)",
+            (_, _) => "flat(second factory)",
         };
         let mut cur = match SEx::<N>::parse(self.pool[i0].0, deep) {
             Ok(e) => e,
@@ -461,12 +469,13 @@ pub fn replay(case: &Value) -> i32 {
 
 pub fn run(tier: Tier) -> i32 {
     let mut rep = Report::new("C10", tier);
-    rep.rule = "explicit-state exploration of operator-application histories over pools of parsed expressions with overlapping and disjoint variable sets: (i) operate_unary/operate_binary by name on FlatEx and DeepEx with the symbolic data type and the universal table, and with a second operator factory holding the same operators in reverse table order used on the same thread (reference tree in lock-step, equality modulo AC); (ii) + - * / pow and neg on DeepEx over exact rationals incl. the neutral-element shortcuts, and by-name application on the flat form (exact equality on a rational grid incl. 0 and 1 wherever the unsimplified form is defined and no power has base zero with a non-positive exponent); distinct = unique structural dumps; non-trivial = at least one application".into();
+    rep.rule = "explicit-state exploration of operator-application histories over pools of parsed expressions with overlapping and disjoint variable sets: (i) operate_unary/operate_binary by name on FlatEx (parsed and parse_wo_compile) and DeepEx with the symbolic data type and the universal table, and with a second operator factory holding the same operators in reverse table order used on the same thread (reference tree in lock-step, equality modulo AC); (ii) + - * / pow and neg on DeepEx over exact rationals incl. the neutral-element shortcuts, and by-name application on the flat form (exact equality on a rational grid incl. 0 and 1 wherever the unsimplified form is defined and no power has base zero with a non-positive exponent); distinct = unique structural dumps; non-trivial = at least one application".into();
     rep.assumptions = vec!["as C01 for (i); for (ii) exact agreement on a 5-point-per-variable rational grid".into()];
     install_panic_hook();
     // (i)
     let ut = universal_table(PRIO_MAPS[0]);
-    let pool_s = read_pool(&["x", "y", "x+y", "1*x", "z/x", "1", "f(y)-2", "2|1"], &ut, LitKind::Sym);
+    // (incl. unary operators directly on literals, which only parse_wo_compile leaves pending)
+    let pool_s = read_pool(&["x", "y", "x+y", "1*x", "z/x", "1", "f(y)-2", "2|1", "x*-2", "f(1)+y"], &ut, LitKind::Sym);
     let twin = Table::new(ut.ops.iter().rev().cloned().collect());
     let m = SymModel { table: ut.clone(), twin, pool: Arc::new(pool_s), un_ops: vec![5, 12], bin_ops: vec![0, 2, 4, 5, 9, 10], max_len: if tier.thorough() { 4 } else { 3 } };
     explore(m, &mut rep, "c10", "symbolic/by-name");
